@@ -10,7 +10,7 @@ import (
 	"golang.org/x/tools/go/ssa"
 )
 
-func (vc *VC) safety() bool { return vc.fc == nil || (vc.fc.Sweep && !vc.fc.NoSafety) }
+func (vc *VC) safety() bool { return vc.fc == nil || ((vc.fc.Sweep || vc.fc.NoPanic) && !vc.fc.NoSafety) }
 
 func (vc *VC) safetyTags() []string {
 	if vc.fc != nil {
